@@ -2,8 +2,10 @@
 #![allow(dead_code, unused_imports, static_mut_refs)]
 extern crate alloc;
 
+/// signature length of public tokens (see l2::signed)
+pub const PUBLIC_SIG_LEN: usize = 64;
 /// see l2::new_secret
-pub const SECRET_BY_DECODE: Option<usize> = None;
+pub const SECRET_SOURCE: u8 = 0;
 #[path = "../common/l2.rs"]
 pub mod l2;
 #[macro_use]
